@@ -739,8 +739,14 @@ class Gen:
         k = s[0]
         if k == "assign":
             w.w(indent).n(s[1], f.locals[s[1]], "def").w(" = ")
-            self.render_expr(w, m, f, s[2])
-            w.w("\n")
+            if self.flag("hanging_layout") and self.b(1, 3):
+                # a parenthesised value whose continuation line is indented LESS than the enclosing def
+                w.w("(\n" + self.c(["", "  ", "      "]))
+                self.render_expr(w, m, f, s[2])
+                w.w(")\n")
+            else:
+                self.render_expr(w, m, f, s[2])
+                w.w("\n")
         elif k == "aug":
             w.w(indent).n(s[1], f.locals[s[1]], "use").w(" %s= " % s[2])
             self.render_expr(w, m, f, s[3])
@@ -779,9 +785,13 @@ class Gen:
             w.w(indent + "# %s = %s + 1\n" % (s[1], s[1]))
         elif k == "print":
             w.w(indent + "print(")
+            hang = f is not None and self.flag("hanging_layout") and self.b(1, 2)
             for i, x in enumerate(s[1]):
                 if i:
                     w.w(", ")
+                if hang:
+                    # continuation lines indented LESS than the enclosing def: layout inside brackets is free
+                    w.w("\n" + self.c(["", "  ", "      "]))
                 self.render_expr(w, m, f, x)
             if m.decoys and self.main is m and False:
                 pass
@@ -884,7 +894,7 @@ def _inherited(cls, field):
     return out
 
 
-PFLAGS = ["header_collision", "package", "classes", "inheritance", "relative", "comprehensions", "two_comps_one_line", "nested", "global_stmt", "decoys", "dunder_call"]
+PFLAGS = ["header_collision", "package", "classes", "inheritance", "relative", "comprehensions", "two_comps_one_line", "nested", "global_stmt", "decoys", "dunder_call", "hanging_layout"]
 
 
 @st.composite
